@@ -532,8 +532,9 @@ class TunnelCommunity(Community):
         if not remove_now and self.settings.remove_tunnel_delay > 0:
             await sleep(self.settings.remove_tunnel_delay)
 
-        circuit = self.circuits.pop(circuit_id, None)
-        if circuit:
+        # Only remove what we were asked to remove: the id may have a new owner by now.
+        if self.circuits.get(circuit_id) is circuit_to_remove:
+            self.circuits.pop(circuit_id)
             self.logger.info("Removed circuit %d %s", circuit_id, additional_info)
 
     @task
@@ -542,6 +543,8 @@ class TunnelCommunity(Community):
         """
         Remove a relay and all information associated with the relay. Return the relays that have been removed.
         """
+        relay_to_remove = self.relay_from_to.get(circuit_id)
+
         # Send destroy
         if destroy:
             self.destroy_relay(circuit_id, reason=destroy)
@@ -551,7 +554,10 @@ class TunnelCommunity(Community):
 
         self.logger.info("Removing relay %d %s", circuit_id, additional_info)
 
-        return self.relay_from_to.pop(circuit_id, None)
+        # Only remove what we were asked to remove: the id may have a new owner by now.
+        if relay_to_remove is None or self.relay_from_to.get(circuit_id) is not relay_to_remove:
+            return None
+        return self.relay_from_to.pop(circuit_id)
 
     @task
     async def remove_exit_socket(self, circuit_id: int, additional_info: str = "", remove_now: bool = False,
@@ -567,7 +573,10 @@ class TunnelCommunity(Community):
             await sleep(self.settings.remove_tunnel_delay)
 
         self.logger.info("Removing exit socket %d %s", circuit_id, additional_info)
-        exit_socket = self.exit_sockets.pop(circuit_id, None)
+        # Only remove what we were asked to remove: the id may have a new owner by now.
+        exit_socket = None
+        if exit_socket_to_destroy is not None and self.exit_sockets.get(circuit_id) is exit_socket_to_destroy:
+            exit_socket = self.exit_sockets.pop(circuit_id)
         if exit_socket:
             # Close socket
             if exit_socket.enabled:
